@@ -133,6 +133,7 @@ func verifyRoot(ld *Loaded, sf *SpecFile, fn *ssa.Function, fs *FuncSpec, prop s
 		e.cover("pre", mergeProps(fs.Safety, allProps(fs)), "true")
 	}
 	entry := st.clone()
+	e.entryState = entry
 	res, out, outG := e.execFunc(fn, args, bindings, st, "true", 0, fs, "")
 	if fs != nil {
 		env := e.newEnv()
@@ -151,10 +152,8 @@ func verifyRoot(ld *Loaded, sf *SpecFile, fn *ssa.Function, fs *FuncSpec, prop s
 		}
 		env.result = res
 		old := entry
-		if fs.Monitor != "" && out.monOld != nil {
-			old = out.monOld
-		}
 		if fs.Monitor != "" {
+			old = e.oldView(out, entry)
 			out = e.postView(out)
 		}
 		env = e.withLets(fs, env, out, old)
